@@ -155,6 +155,15 @@ fn searches<S: StorageData>(db: &DbImpl<S>, obs: &dbdump::Obs) -> usize {
             if let Ok(r) = db.exec(q) { n += r.elements.len(); }
         }
     }
+    // both counters of every node summed (GraphNode::edge_count, SelectEdgeCountQuery's total) and an edge_count condition
+    let node_ids: Vec<QueryId> = obs.elems.iter().filter(|e| e.id > 0).map(|e| QueryId::Id(DbId(e.id))).collect();
+    if let Ok(r) = db.exec(SelectEdgeCountQuery { ids: QueryIds::Ids(node_ids), from: true, to: true }) { n += r.elements.len(); }
+    if let Some(a) = nodes.first() {
+        let q = SearchQuery { algorithm: SearchQueryAlgorithm::BreadthFirst, origin: QueryId::Id(DbId(*a)), destination: QueryId::Id(DbId(0)), limit: 0, offset: 0,
+                              order_by: vec![], conditions: vec![QueryCondition { logic: QueryConditionLogic::And, modifier: QueryConditionModifier::None,
+                                  data: QueryConditionData::EdgeCount(CountComparison::GreaterThan(1)) }] };
+        if let Ok(r) = db.exec(q) { n += r.elements.len(); }
+    }
     if let Ok(r) = db.exec(SelectKeyCountQuery(QueryIds::Ids(obs.elems.iter().map(|e| QueryId::Id(DbId(e.id))).collect()))) { n += r.elements.len(); }
     for (a, _) in obs.aliases.iter().take(4) {
         if let Ok(r) = db.exec(SelectValuesQuery { keys: vec![], ids: QueryIds::Ids(vec![QueryId::Alias(a.clone())]) }) { n += r.elements.len(); }
